@@ -234,6 +234,9 @@ func runC01(r *Run) {
 	r.Rule("C01.R8")
 	c01Who(r)
 
+	// the validated values stay unwritten until the entry has been derived from them (rules_t7c01chain.go)
+	c01ValidatedUnwritten(r)
+
 	// "carries the validated chain (root included)": the chain handed on is the verified path that
 	// was compared, certificate by certificate, with the submission (rule sets of C02)
 	r.Shared("C01.R11", func() {
